@@ -586,3 +586,147 @@ Proof.
   intros fuel c1 c2 k1 k2 sp Hc Hk. rewrite <- !key_lookup_lower, Hc. rewrite (key_lookup_key_case _ _ k1 k2 _ Hk).
   reflexivity.
 Qed.
+
+(* ------------------------------------------------------------------ the isolation tests, declaratively *)
+
+(* everything between the start of the line and position p is a left delimiter *)
+Definition left_clear (conf : list Z) (p : nat) : Prop :=
+  forall q, (q < p)%nat -> (forall j, (q <= j < p)%nat -> nth j conf 0 <> LF) -> In (nth q conf 0) delims_left.
+
+(* what the code tests on the right of a keyword of length klen at p: the next character is a right delimiter
+   -- unless it is the LAST character of the string (not looked at), and a string that IS the keyword never matches *)
+Definition right_clear (conf : list Z) (p klen : nat) : Prop :=
+  length conf <> klen /\ ((p + klen + 1 < length conf)%nat -> In (nth (p + klen) conf 0) delims_right).
+
+(* the test one would expect: the next character, if there is one, is a right delimiter *)
+Definition right_clear_expected (conf : list Z) (p klen : nat) : Prop :=
+  (p + klen < length conf)%nat -> In (nth (p + klen) conf 0) delims_right.
+
+Lemma isolated_right_iff : forall conf p klen, (p + klen <= length conf)%nat ->
+  (isolated_right conf p klen = true <-> right_clear conf p klen).
+Proof.
+  intros conf p klen Hb. unfold isolated_right, right_clear.
+  destruct (Nat.ltb_spec (length conf) (klen + 1)) as [L|L].
+  - assert (E : length conf = klen) by lia. rewrite nth_overflow by lia. cbn. split; [discriminate|]. intros [H _]. congruence.
+  - destruct (Nat.ltb_spec p (length conf - klen - 1)) as [L2|L2].
+    + rewrite memb_In. split; [intros H; split; [lia|intros _; exact H]|intros [_ H]; apply H; lia].
+    + split; [intros _; split; [lia|intros H; lia]|reflexivity].
+Qed.
+
+Lemma lower_is_lf : forall c, lower c = LF -> c = LF.
+Proof.
+  intros c H. destruct (lower_range c) as [E|[R _]]; [congruence|]. unfold LF in H. lia.
+Qed.
+
+Lemma lf_lower : forall c, c = LF <-> lower c = LF.
+Proof. intros c. split; [intros E; subst c; reflexivity|apply lower_is_lf]. Qed.
+
+Lemma isolated_left_iff : forall conf p, nth p conf 0 <> LF ->
+  (isolated_left conf (to_lower conf) p = true <-> left_clear conf p).
+Proof.
+  intros conf p Hp. unfold isolated_left, left_clear. destruct p as [|p']; [split; [intros _ q Hq; lia|reflexivity]|].
+  set (cl := to_lower conf).
+  assert (Hnl : forall j, nth j cl 0 = LF <-> nth j conf 0 = LF).
+  { intros j. subst cl. rewrite nth_to_lower. symmetry. apply lf_lower. }
+  assert (Hdl : forall j, memb (nth j cl 0) delims_left = memb (nth j conf 0) delims_left).
+  { intros j. subst cl. rewrite nth_to_lower. apply memb_lower. exact no_letters_delims_left. }
+  pose proof (rfind_if_spec is_lf cl (S p')) as Hr. unfold line_begin_of.
+  (* positions from the line start up to p hold no LF *)
+  assert (Hline : forall lb, lb = match rfind_if is_lf cl (S p') with None => O | Some pl => S pl end ->
+            (lb <= S p')%nat /\ (forall j, (lb <= j < S p')%nat -> nth j conf 0 <> LF) /\
+            (forall q, (q < lb)%nat -> exists j, (q <= j < S p')%nat /\ nth j conf 0 = LF)).
+  { intros lb E. destruct (rfind_if is_lf cl (S p')) as [pl|].
+    - destruct Hr as [R1 [R2 [Pl Hb]]]. unfold is_lf in Pl. apply Z.eqb_eq in Pl. apply Hnl in Pl.
+      assert (pl <> S p') by (intros E2; subst pl; contradiction).
+      subst lb. repeat split; [lia| |].
+      + intros j Hj Hc. destruct (Nat.lt_ge_cases j (length cl)) as [Lj|Lj].
+        * specialize (Hb j ltac:(lia) Lj). unfold is_lf in Hb. apply Z.eqb_neq in Hb. apply Hb. apply Hnl. exact Hc.
+        * subst cl. rewrite to_lower_length in Lj. rewrite nth_overflow in Hc by lia. unfold LF in Hc. discriminate.
+      + intros q Hq. exists pl. split; [lia|exact Pl].
+    - subst lb. repeat split; [lia| |intros q Hq; lia].
+      intros j Hj Hc. destruct (Nat.lt_ge_cases j (length cl)) as [Lj|Lj].
+      + specialize (Hr j ltac:(lia) Lj). unfold is_lf in Hr. apply Z.eqb_neq in Hr. apply Hr. apply Hnl. exact Hc.
+      + subst cl. rewrite to_lower_length in Lj. rewrite nth_overflow in Hc by lia. unfold LF in Hc. discriminate. }
+  specialize (Hline _ eq_refl). set (lb := match rfind_if is_lf cl (S p') with None => O | Some pl => S pl end) in *.
+  destruct Hline as [Hlb [Hno Hsome]].
+  pose proof (find_if_spec (fun c => negb (memb c delims_left)) cl lb) as Hf.
+  split.
+  - intros H q Hq Hq2.
+    destruct (memb (nth p' conf 0) delims_left) eqn:M; [|discriminate]. cbn [negb] in H.
+    assert (Hql : (lb <= q)%nat).
+    { destruct (Nat.lt_ge_cases q lb) as [L|L]; [|exact L]. destruct (Hsome q L) as [j [Hj Ej]]. exfalso. apply (Hq2 j Hj Ej). }
+    apply memb_In. rewrite <- Hdl.
+    destruct (find_if (fun c => negb (memb c delims_left)) cl lb) as [pc|].
+    + destruct Hf as [_ [_ Hb]]. destruct (Nat.ltb_spec pc (S p')) as [L|L]; [discriminate|].
+      specialize (Hb q ltac:(lia)). apply negb_false_iff in Hb. exact Hb.
+    + destruct (Nat.lt_ge_cases q (length cl)) as [Lq|Lq].
+      * specialize (Hf q ltac:(lia)). apply negb_false_iff in Hf. exact Hf.
+      * exfalso. subst cl. rewrite to_lower_length in Lq.
+        assert (p' < length conf)%nat; [|lia].
+        destruct (Nat.lt_ge_cases p' (length conf)) as [L1|L1]; [exact L1|].
+        rewrite nth_overflow in M by lia. discriminate.
+  - intros H.
+    assert (M : memb (nth p' conf 0) delims_left = true).
+    { destruct (Z.eq_dec (nth p' conf 0) LF) as [E|E]; [rewrite E; reflexivity|].
+      apply memb_In. apply H; [lia|]. intros j Hj. replace j with p' by lia. exact E. }
+    rewrite M. cbn [negb].
+    destruct (find_if (fun c => negb (memb c delims_left)) cl lb) as [pc|]; [|rewrite Nat.ltb_irrefl; reflexivity].
+    destruct Hf as [R [Pc _]]. destruct (Nat.ltb_spec pc (S p')) as [L|L]; [exfalso|reflexivity].
+    apply negb_true_iff in Pc. rewrite Hdl in Pc.
+    assert (In (nth pc conf 0) delims_left); [|apply memb_In in H0; congruence].
+    apply H; [lia|]. intros j Hj. apply Hno. lia.
+Qed.
+
+(* an occurrence of the keyword at p that key_lookup accepts, in declarative form *)
+Definition kw_occurrence (conf key : list Z) (p : nat) : Prop :=
+  occurs (to_lower conf) (to_lower key) p /\ left_clear conf p /\ right_clear conf p (length key) /\
+  balanced (skipn p conf).
+
+Lemma occurs_first_not_lf : forall conf k p,
+  occurs (to_lower conf) k p -> k <> [] -> key_chars_ok k -> nth p conf 0 <> LF.
+Proof.
+  intros conf k p Ho Hk Hc E.
+  assert (Lk : (0 < length k)%nat) by (destruct k; [congruence|cbn; lia]).
+  pose proof (occurs_nth _ _ p O Ho Lk) as Hn. rewrite Nat.add_0_r, nth_to_lower, E in Hn.
+  change (lower LF) with LF in Hn.
+  assert (HI : In LF k) by (rewrite Hn; apply nth_In; exact Lk).
+  apply Hc in HI. discriminate.
+Qed.
+
+Lemma kw_candidate_iff : forall conf key p, good_key key -> (kw_candidate conf key p <-> kw_occurrence conf key p).
+Proof.
+  intros conf key p [Hk Hc]. unfold kw_candidate, kw_occurrence, candidate.
+  assert (Hk' : to_lower key <> []) by (destruct key; [congruence|discriminate]).
+  split.
+  - intros [Ho Cd]. apply andb_true_iff in Cd. destruct Cd as [Cd C3]. apply andb_true_iff in Cd. destruct Cd as [C1 C2].
+    pose proof (occurs_bound _ _ _ Ho Hk') as Hb. rewrite !to_lower_length in Hb.
+    pose proof (occurs_first_not_lf conf (to_lower key) p Ho Hk' Hc) as Hp.
+    repeat split; [exact Ho|apply isolated_left_iff; assumption| | |apply check_braces_iff; exact C3];
+      apply (isolated_right_iff conf p (length key) Hb) in C2; apply C2.
+  - intros [Ho [Hl [Hr Hbal]]]. split; [exact Ho|].
+    pose proof (occurs_bound _ _ _ Ho Hk') as Hb. rewrite !to_lower_length in Hb.
+    pose proof (occurs_first_not_lf conf (to_lower key) p Ho Hk' Hc) as Hp.
+    apply andb_true_iff. split; [apply andb_true_iff; split|].
+    + apply isolated_left_iff; assumption.
+    + apply isolated_right_iff; assumption.
+    + apply check_braces_iff. exact Hbal.
+Qed.
+
+(* the expected right-hand test is not what the code does: two counterexamples *)
+Lemma right_isolation_refuted :
+  (* "colvarx": the keyword "colvar" is found although an 'x' follows it *)
+  (exists conf key, kl_position (key_lookup (fuel_of conf) conf key O) = Some O /\
+                    ~ right_clear_expected conf O (length key)) /\
+  (* "colvar": the keyword "colvar" is not found although nothing surrounds it *)
+  (exists conf key, key_lookup (fuel_of conf) conf key O = KL_notfound /\
+                    occurs (to_lower conf) (to_lower key) O /\ left_clear conf O /\
+                    right_clear_expected conf O (length key) /\ balanced conf).
+Proof.
+  split.
+  - exists [99; 111; 108; 118; 97; 114; 120], [99; 111; 108; 118; 97; 114]. split; [vm_compute; reflexivity|].
+    unfold right_clear_expected. cbn. intros H. specialize (H ltac:(lia)). unfold LF, SP, TAB, LBRACE in H.
+    destruct H as [H|[H|[H|[H|[]]]]]; discriminate.
+  - exists [99; 111; 108; 118; 97; 114], [99; 111; 108; 118; 97; 114]. repeat split.
+    + intros q Hq. lia.
+    + unfold right_clear_expected. cbn. lia.
+Qed.
